@@ -24,16 +24,27 @@ P = {
          'Coq: verified exact slab/scene checker + local-rule theorems; bit-exact model/implementation correspondence; per-run certification'),
  'C02': ('proof', 'As C01: cert02_reading_sound and check_scene_sound are proved (polygon reading = even-odd reading, holes inside their '
          'exterior, holes and polygons pairwise disjoint, decided for every point), twin_not_selected, F1 refutation/repair witnesses by '
-         'vm_compute; evaluated per run on the implementation\'s results. The "no boundary piece used twice" clause is exact rational Python, '
-         'not verified.', '§7 C02', 'Coq: verified scene checker for the nesting laws; correspondence; per-run certification'),
+         'vm_compute; evaluated per run on the implementation\'s results. Proved for every instance and every input, whatever the geometry '
+         '(GroupingProofs): the bookkeeping that groups contours into polygons is a partition - a contour\'s parent is an earlier contour '
+         'without a parent (holes never nested in holes), the parent lists it, every listed id names a contour whose parent is the lister, '
+         'no id is listed twice, so every contour is the exterior of its own polygon or an interior ring of exactly one polygon '
+         '(C02_grouping_is_a_partition, C02_every_result_is_such_a_grouping). The "no boundary piece used twice" clause is exact rational '
+         'Python, not verified.', '§7 C02', 'Coq: verified scene checker for the nesting laws; correspondence; per-run certification'),
  'C03': ('proof', 'Partial proof + correspondence of outcomes in both build profiles and both float types + large inputs. Proved: the bubble sort '
          'of order_events returns a sorted permutation whenever the event order is asymmetric on the events sorted (and provably diverges on '
          'an order with a pair that is less both ways), the std BinaryHeap algorithms never lose or duplicate an element whatever the '
          'comparison answers and are a priority queue under a preorder, a certified run returned within its event budget; and — an '
          'invariant of the whole sweep loop, for every numeric instance and every input — every event keeps a mutual partner, so the unwrap '
          'in possible_intersection.rs cannot fail and the sweep stage has no panic site in release builds apart from the hook\'s budget '
-         '(C03_sweep_release_panic_free). NOT proved: the quadratic event bound and absence of the index panic of connect_edges for all '
-         'valid inputs; both are observed per run (budget hook, catch_unwind, child processes incl. staggered early-break scenarios).', '§7 C03', 'Coq: termination/container theorems; outcome correspondence release+debug, f64+f32; event-budget hook'),
+         '(C03_sweep_release_panic_free). The contour stage (ConnectProofs, every instance): the successor table of '
+         'precompute_iteration_order is in range and a union of cycles, order_events leaves a valid position in every selected event, so '
+         'result_events[pos] / iteration_map[pos] is never out of range (C03_contour_stage_index_safe), the search of get_next_pos and the '
+         'contour walk terminate (C03_contour_stage_terminates) - for every event vector whose result events are closed under the partner '
+         'link (derived from the C13 link structure by C03_closed_from_links; that left/right flags of partners differ is checked per run, '
+         'not proved: the rounding swap of divide_segment can break it in floating point); contours[*hole_id] is never out of range for '
+         'any input (C03_hole_index_safe). NOT proved: the quadratic event bound, termination of the sweep loop, and that '
+         'contours[lower_contour_id] is in range (geometric; N1/N6 reach it); observed per run (budget hook, catch_unwind, child processes '
+         'incl. staggered early-break scenarios).', '§7 C03', 'Coq: termination/container theorems; outcome correspondence release+debug, f64+f32; event-budget hook'),
  'C04': ('proof', 'Partial proof + per-run exact provenance check. Proved: the clamp (returned points lie in both segments\' boxes) for every '
          'instance satisfying the order laws (the laws are proved for the binary64/binary32 models), exactness of every returned point at '
          'the exact instance (intersection_exact_all), ring-closing glue; and NO INVENTED VERTICES for every instance, input and '
@@ -88,7 +99,9 @@ P = {
          'in the queue after fill_queue and every event returned by subdivide is one end of a mutually linked pair (partner\'s partner is '
          'the event, distinct, same operand and contour), as an invariant of the whole sweep loop through divide_segment, '
          'possible_intersection, compute_fields, the std heap and the splay tree with no assumption on the comparators '
-         '(C13_subdivided_events_linked). Per run on the complete event vectors: left-first, non-zero length (all families); no improper '
+         '(C13_subdivided_events_linked); fill_queue creates exactly two events per non-degenerate edge; one division step re-links exactly '
+         'the divided pair (every instance, C13_division_relinks_one_pair) and, at the exact instance, the two pieces cover exactly the '
+         'divided segment and meet only in the division point (C13_division_covers_exactly). Per run on the complete event vectors: left-first, non-zero length (all families); no improper '
          'contact between any two sub-segments and exact coverage of every input edge (exact families, rational Python). Bit-exact '
          'correspondence of the full event vector with the model, all four operations, also at scales 2^-60 .. 2^40.', '§7 C13',
          'Coq: queue-filling theorems; correspondence on event vectors; exact planarity check'),
@@ -105,8 +118,10 @@ P = {
          'collinear partners of one operand are proved to be the only gap; the segment order answers Equal exactly for the identical segment '
          'and is antisymmetric whenever the event order decides which left event comes first (every instance); the consumer theorem '
          '(asymmetry => the bubble sort terminates sorted); transitivity at the exact instance through the key and for left events at one '
-         'point with non-collinear later partners (orientation is transitive inside a half-plane). Chains through collinear partners and '
-         'agreement of the segment order with the vertical order are NOT proved: they are '
+         'point with non-collinear later partners (orientation is transitive inside a half-plane); and the third clause at the exact '
+         'instance: for a non-vertical earlier segment and a non-crossing, non-collinear pair the answer of compare_segments IS the '
+         'vertical order at every common abscissa, for both argument orders (C15_segment_order_is_vertical_order). Chains through '
+         'collinear partners and the vertical-order clause for a vertical earlier segment (N4) are NOT proved: they are '
          'checked exhaustively on all lattice segment pairs, on float pairs in both precisions against both bit-exact models (signed '
          'zeros, nearly collinear points with adversarially wrong plain determinants) and on the event sets of generated inputs.', '§7 C15',
          'Coq: order theorems; exhaustive lattice correspondence; all-pairs/all-triples checks'),
@@ -115,7 +130,8 @@ P = {
          'boxes. The step itself at the exact instance: disjoint closed segments are left untouched with code 0, a single meeting point '
          'with a shared left/right endpoint or at an endpoint of each segment divides nothing, and every event the step creates lies at ONE '
          'point, the common point returned (C16_new_events_at_one_point; the one-ulp bump is the identity over exact arithmetic). The '
-         'overlap arm (typing, division at the overlap ends) and order independence are NOT proved. possible_intersection is tied to the '
+         'kernel is independent of the order of two non-parallel segments (C16_order_independent_none/_point). The overlap arm (typing, '
+         'division at the overlap ends) is NOT proved. possible_intersection is tied to the '
          'model exhaustively on the lattice (43 200 configurations) and on float pairs; all clauses checked against exact rational '
          'geometry. The one-ulp bump (N2) is a known finding on floats.', '§7 C16',
          'Coq: intersection_exact_all, clamp, point-arm theorems of possible_intersection; exhaustive lattice correspondence'),
